@@ -4,7 +4,9 @@ from stages import beaconnet, beaconmodel
 def run(ctx):
     q = ctx.quick
     beaconmodel.design(ctx, [("MC_Beacon_async2.cfg", dict(timeout=900))] +
-                       ([] if q else [("MC_Beacon_sync3.cfg", dict(timeout=1500))]))
+                       ([] if q else [("MC_Beacon_sync3.cfg", dict(timeout=1500)),
+                                        # n=4, t=3, one stop/restart, two rounds: 0.8 M states
+                                        ("MC_Beacon_sync4.cfg", dict(timeout=1500, module="MC_Beacon4"))]))
     scripts = beaconmodel.early_cex(ctx)
     scripts += beaconmodel.sim_walks(ctx, 6 if q else 60)
     beaconnet.run(ctx, "C04", extra_scripts=scripts)
